@@ -269,12 +269,18 @@ class serving:
         return False
 
 
-def to_legacy(fs, root, minishard_bits_of_scale):
-    """Rewrite every <hex>.shard under root/<key>/ into the legacy
-    <hex>.index + <hex>.data pair (split at the end of the shard index)."""
+def to_legacy(fs, root, minishard_bits_of_scale, every=1):
+    """Rewrite <hex>.shard files under root/<key>/ into the legacy
+    <hex>.index + <hex>.data pair (split at the end of the shard index).
+    every=1: all of them; every=2: every second file in sorted order (a
+    dataset with both layouts side by side)."""
     from sim.simfs import FileNode
-    for path in list(fs.files):
+    n = 0
+    for path in sorted(fs.files):
         if not path.startswith(root + "/") or not path.endswith(".shard"):
+            continue
+        n += 1
+        if n % every != 0:
             continue
         key = path[len(root) + 1:].split("/")[0]
         mb = minishard_bits_of_scale[key]
